@@ -271,9 +271,10 @@ func (g *vdb) checkC23(tr *lib.Trace, n *vnode) {
 			ordRows = append(ordRows, vshowVals(vs))
 		}
 		if !okOrder {
-			tr.Fail("sort-order-not-respected", at()+" | "+vtrunc(strings.Join(ordRows, ";"), 300))
+			tr.Fail("sort-order-not-respected:"+n.kids[0].kind(), at()+" | "+vtrunc(strings.Join(ordRows, ";"), 300))
+		} else {
+			tr.Q("sorted "+lib.B(n.rev)+" "+g.ids.list(n.list)+" "+strings.Join(ordRows, " "), lib.B(okOrder))
 		}
-		tr.Q("sorted "+lib.B(n.rev)+" "+g.ids.list(n.list)+" "+strings.Join(ordRows, " "), lib.B(okOrder))
 	}
 	// requested order
 	if use == ReqOrder && len(next.seq) > 0 {
@@ -305,8 +306,9 @@ func (g *vdb) checkC23(tr *lib.Trace, n *vnode) {
 		}
 		if !okOrder {
 			tr.Fail("order-not-respected", at()+" | "+vtrunc(strings.Join(ordRows, ";"), 300))
+		} else {
+			tr.Q("sorted f "+g.ids.list(index)+" "+strings.Join(ordRows, " "), lib.B(okOrder))
 		}
-		tr.Q("sorted f "+g.ids.list(index)+" "+strings.Join(ordRows, " "), lib.B(okOrder))
 	}
 	// cursor walk; positions are indices into the forward order (rows must be distinct for that)
 	pos := map[string]int{}
@@ -442,8 +444,9 @@ func (g *vdb) checkC23(tr *lib.Trace, n *vnode) {
 				}
 				if got != wantS {
 					tr.Fail("lookup-spec:"+kind+inEmpty, at()+" | lookup "+selS+" | as written "+wantS+" | returned "+got)
+				} else {
+					tr.Q("lookup "+selS+" "+n.toks(&g.ids), got)
 				}
-				tr.Q("lookup "+selS+" "+n.toks(&g.ids), got)
 			} else {
 				tr.Count("select=" + kind)
 				selected = true
@@ -455,8 +458,9 @@ func (g *vdb) checkC23(tr *lib.Trace, n *vnode) {
 				got := canon(rows)
 				if strings.Join(got.rows, ";") != strings.Join(want.rows, ";") {
 					tr.Fail("select-spec:"+kind+inEmpty, at()+" | select "+selS+" | as written "+vtrunc(want.show(&g.ids), 300)+" | read "+vtrunc(got.show(&g.ids), 300))
+				} else {
+					tr.Q("select "+selS+" "+n.toks(&g.ids), got.show(&g.ids))
 				}
-				tr.Q("select "+selS+" "+n.toks(&g.ids), got.show(&g.ids))
 				// a join selects again without clearing; clear only sometimes
 				if r.Intn(3) == 0 {
 					q.Select(nil)
